@@ -14,7 +14,8 @@ def subscript_strategy():
     big = hs.integers(41, 999).map(str)
     dec = hs.tuples(hs.integers(0, 30), hs.integers(1, 999)).map(lambda t: "%d.%s" % (t[0], str(t[1]).rstrip("0") or "5"))
     lead = hs.integers(1, 99).map(lambda k: "." + (str(k).rstrip("0") or "5"))
-    return hs.one_of(ints, ints, dec, big, lead)
+    tiny = hs.tuples(hs.integers(4, 12), hs.integers(1, 9)).map(lambda t: "0." + "0" * t[0] + str(t[1]))      # trace-level stoichiometry: 0.00000005
+    return hs.one_of(ints, ints, dec, big, lead, tiny)
 
 
 def formula_strategy(symbols, max_depth=4, max_terms=4):
@@ -39,8 +40,10 @@ def random_tree(rng, palette, depth=3, max_terms=4):
             return None
         if k < 0.8:
             return str(rng.randint(2, 12))
-        if k < 0.9:
+        if k < 0.88:
             return "%d.%d" % (rng.randint(0, 9), rng.randint(1, 99))
+        if k < 0.94:
+            return "0." + "0" * rng.randint(4, 12) + str(rng.randint(1, 9))      # trace-level stoichiometry
         return ".%d" % rng.randint(1, 9)
 
     def terms(d):
